@@ -179,6 +179,7 @@ func c06Run(lang string, depth int) {
 	v.Observe(in)
 	foo, _ := in.LocateObject("p", "Foo")
 	v.Excuse("union-nested-in-union", symir.HasNestedUnion(foo.Type, false))
+	v.Excuse("union-of-two-anonymous-enums", c06TwoEnumBranches(foo.Type))
 	out, err := chainOf(lang).Process(in)
 	if err != nil {
 		v.Reach("chain returned an error")
@@ -363,3 +364,31 @@ func VerifC05ChainJava()       { c05Chain("java") }
 func VerifC05ChainPHP()        { c05Chain("php") }
 func VerifC05ChainPython()     { c05Chain("python") }
 func VerifC05ChainTypeScript() { c05Chain("typescript") }
+
+// c06TwoEnumBranches: does some union of t list two (anonymous) enum branches? (shape kinds are concrete on a path)
+func c06TwoEnumBranches(t ast.Type) bool {
+	switch t.Kind {
+	case ast.KindDisjunction:
+		n := 0
+		for _, b := range t.Disjunction.Branches {
+			if b.Kind == ast.KindEnum {
+				n++
+			}
+			if c06TwoEnumBranches(b) {
+				return true
+			}
+		}
+		return n >= 2
+	case ast.KindArray:
+		return c06TwoEnumBranches(t.Array.ValueType)
+	case ast.KindMap:
+		return c06TwoEnumBranches(t.Map.ValueType)
+	case ast.KindStruct:
+		for _, f := range t.Struct.Fields {
+			if c06TwoEnumBranches(f.Type) {
+				return true
+			}
+		}
+	}
+	return false
+}
